@@ -91,6 +91,7 @@ def spawn_worker(prop, tier, seed, w, nw, out, soft, buckets, recheck, indices=N
 
 def read_lines(path):
     lines, done = [], None
+    prov = {}  # violation lines written before shrinking; superseded by the final line of the same run
     try:
         with open(path) as f:
             for ln in f:
@@ -103,10 +104,14 @@ def read_lines(path):
                     continue
                 if o.get("done"):
                     done = o
+                elif o.get("provisional"):
+                    prov[o["idx"]] = o
                 else:
+                    prov.pop(o.get("idx"), None)
                     lines.append(o)
     except FileNotFoundError:
         pass
+    lines.extend(prov.values())
     return lines, done
 
 
@@ -324,6 +329,12 @@ def replay(path):
     spec = SPECS[prop]
     core.assert_flowjax_from_repo()
     world = rp["world"]
+    for w in rp.get("prefix_worlds") or []:
+        # process history the failure needs (earlier worlds of the worker that found it)
+        try:
+            spec.run(w)
+        except Exception:  # noqa: BLE001
+            pass
     res = spec.run(world)
     V, P, mode = spec.oracle(world, res)
     dg = spec.digest(res)
